@@ -2149,6 +2149,23 @@ func (r *Raft) installSnapshot(rpc RPC, req *InstallSnapshotRequest) {
 		r.logger.Error("failed to compact logs", "error", err)
 	}
 
+	// The log we keep above the snapshot may hold configuration entries newer
+	// than the configuration the snapshot carries; they are still our latest
+	// configuration (NewRaft scans the log the same way after restoring a
+	// snapshot).
+	if lastLogIdx, _ := r.getLastLog(); lastLogIdx > req.LastLogIndex {
+		for index := req.LastLogIndex + 1; index <= lastLogIdx; index++ {
+			var entry Log
+			if err := r.logs.GetLog(index, &entry); err != nil {
+				break
+			}
+			if err := r.processConfigurationLogEntry(&entry); err != nil {
+				r.logger.Error("failed to process configuration entry above the installed snapshot", "index", index, "error", err)
+				break
+			}
+		}
+	}
+
 	r.logger.Info("Installed remote snapshot")
 	resp.Success = true
 	r.setLastContact()
